@@ -33,7 +33,7 @@ ALL_OPS = ["create", "mkdir", "rename", "delete_path", "delete_oid", "set_oid", 
 # tags a hazard-free prefix must avoid in graph mode = the tags the listed findings are about
 HAZARDS = ["CASE_VARIANT", "ID_ON_ANCESTOR", "KEEP_ON_REPLACED"]
 STRUCT_OPS = ALL_OPS[:7]
-PARTS = [["update"], ["rename"], ["set_oid"], ["mkdir", "delete_path", "delete_oid"], ["create", "set_meta_path", "set_meta_oid"]]
+PARTS = [["update", "delete_oid", "set_meta_oid"], ["rename", "create", "delete_path"], ["set_oid", "mkdir", "set_meta_path"]]
 ROOT_OID = "root"
 
 
@@ -219,10 +219,15 @@ def _exec_chunk(args):
 
 
 # ------------------------------------------------------------------------------------------------------
-def judge(ctx, mode, traces, hists, what, stats=None):
-    """TLC judges; every reported clause becomes a signature (clause, tags of the failing call, op, exception
-    type, case mode) which is either a listed finding or a violation."""
-    viols, _ = tc.validate(ctx, "Trace_HCache", trace_cfg(ctx, mode), traces, what, min_batch=1500)
+def validate(ctx, mode, traces, what):
+    """TLC judges (thread-safe part): returns the raw (trace index, line, [clause, tags]) triples."""
+    viols, _ = tc.validate(ctx, "Trace_HCache", trace_cfg(ctx, mode), traces, what, min_batch=3000)
+    return viols
+
+
+def attribute(ctx, mode, traces, hists, viols, what, stats=None):
+    """Every reported clause becomes a signature (clause, tags of the failing call, op, exception type, case mode)
+    which is either a listed finding or a violation."""
     for ti, line, (clause, tags) in viols:
         ev = traces[ti][line - 1]
         if clause == "HARNESS":
@@ -234,25 +239,25 @@ def judge(ctx, mode, traces, hists, what, stats=None):
         sig = {"clause": clause, "tags": sorted(tags), "op": ev["c"]["op"], "exc_type": ev.get("xt", ""),
                "case_mode": mode}
         calls = [{k: c[k] for k in ("op", "p", "q", "i", "t", "m", "k")} for c in hists[ti][:line]]
-        fid = ctx.report(sig, {"history": calls, "line": line, "mode": mode, "observed": {k: ev.get(k) for k in ("x", "xt", "T", "I", "W")}},
+        fid = ctx.report(sig, {"history": calls, "line": line, "mode": mode,
+                               "observed": {k: ev.get(k) for k in ("x", "xt", "T", "I", "W")}},
                          replay={"mode": mode, "history": calls})
         if stats is not None:
             stats[(clause, ",".join(sorted(tags)) or "-", ev["c"]["op"], ev.get("xt", ""), mode, fid or "UNLISTED")] += 1
     return viols
 
 
-def run_family(ctx, mode, hists, what, last_only=False, stats=None):
-    import multiprocessing
-    _setup()                         # import the repository once, before forking
+def judge(ctx, mode, traces, hists, what, stats=None):
+    return attribute(ctx, mode, traces, hists, validate(ctx, mode, traces, what), what, stats)
+
+
+def execute_all(ctx, pool, mode, hists, last_only, stats=None):
+    """Execute the histories of one family in the worker processes; returns the traces (same order)."""
     items = [(h, (len(h) - 1) if last_only else 0) for h in hists]
     step = max(20, len(items) // (4 * ctx.workers) + 1)
     jobs = [(mode, items[k:k + step]) for k in range(0, len(items), step)]
-    traces = []
-    with multiprocessing.get_context("fork").Pool(min(ctx.workers, max(1, len(jobs)))) as pool:
-        for trs in pool.map(_exec_chunk, jobs):
-            traces.extend(trs)
-    judged = sum(1 for t in traces for e in t if e["j"])
-    ctx.count(evaluations=judged)
+    traces = [t for trs in pool.map(_exec_chunk, jobs) for t in trs]
+    ctx.count(evaluations=sum(1 for t in traces for e in t if e["j"]))
     if stats is not None:
         for h, (_, jf) in zip(hists, items):
             for c in h[jf:]:
@@ -261,6 +266,15 @@ def run_family(ctx, mode, hists, what, last_only=False, stats=None):
                 for t in c.get("tags", []):
                     stats[("tag", mode, t)] += 1
             stats[("histories", mode, "clean" if not any(c.get("tags") for c in h) else "tagged")] += 1
+    return traces
+
+
+def run_family(ctx, mode, hists, what, last_only=False, stats=None):
+    """One family on its own (used by the tools around the check)."""
+    import multiprocessing
+    _setup()
+    with multiprocessing.get_context("fork").Pool(ctx.workers) as pool:
+        traces = execute_all(ctx, pool, mode, hists, last_only, stats)
     judge(ctx, mode, traces, hists, what, stats)
     return traces
 
@@ -268,7 +282,7 @@ def run_family(ctx, mode, hists, what, last_only=False, stats=None):
 def generate(ctx, name, mode, maxlen, gmode, what, simulate=None, seed=0, **kw):
     cfg = gen_cfg(ctx, name, mode, maxlen, gmode, **kw)
     extra = ["-seed", str(seed)] if simulate else []
-    res = ctx.tlc("Gen_HCache", cfg, what=what, workers=1, simulate=simulate, depth=(maxlen + 1) if simulate else None,
+    res = ctx.tlc("Gen_HCache", cfg, what=what, workers=1, simulate=simulate, depth=(maxlen + 2) if simulate else None,
                   extra=extra, heap="3g", timeout=3000)
     if res.error or (res.rc != 0 and not simulate):
         raise MachineryError("generator %s failed (rc=%s)\n%s" % (name, res.rc, res.tail(30)))
@@ -299,8 +313,8 @@ def families(tier, seed):
         ("graphm_cs", "cs", "graph", 2 if q else 3, dict(metas=(0, 1), ops=ALL_OPS)),
         # case-insensitive provider with a case variant of one name
         ("graph_ci", "ci", "graph", 2 if q else 3, dict(metas=(0,), ops=STRUCT_OPS)),
-        ("sim_cs", "cs", "sim", 8 if q else 12, dict(metas=(0, 1, 2), simulate="num=%d" % (3 if q else 30), seed=2 * seed + 1)),
-        ("sim_ci", "ci", "sim", 8 if q else 12, dict(metas=(0, 1, 2), simulate="num=%d" % (2 if q else 20), seed=2 * seed + 2)),
+        ("sim_cs", "cs", "sim", 8 if q else 12, dict(metas=(0, 1, 2), simulate="num=%d" % (60 if q else 1500), seed=2 * seed + 1)),
+        ("sim_ci", "ci", "sim", 8 if q else 12, dict(metas=(0, 1, 2), simulate="num=%d" % (40 if q else 1000), seed=2 * seed + 2)),
     ]
     if not q:
         fams += [
@@ -329,12 +343,18 @@ def run(ctx):
                "single-threaded use (the class has no locking)",
                "graph families judge the last call of each history; its prefix is itself a member of the family")
 
+    import multiprocessing
+    import time
+    _setup()                         # import the repository once, then fork the executors before any thread exists
+    xpool = multiprocessing.get_context("fork").Pool(ctx.workers)
     pool = ThreadPoolExecutor(max_workers=ctx.workers)
     # design level: the reference dictionary itself is coherent for every call sequence (whole reachable graph)
-    mcs = [pool.submit(ctx.model_check, "HCache", cfg, what, coverage=False, workers=4)
-           for cfg, what in ([("MC_HCache_q.cfg", "design: Coherent, RoundTrip, step properties; cs, ids {1,2}, metadata")] if quick else
-                             [("MC_HCache.cfg", "design: cs, ids {1,2,3}"), ("MC_HCache_ci.cfg", "design: ci, ids {1,2,3}"),
-                              ("MC_HCache_q.cfg", "design: cs, ids {1,2}, metadata")])]
+    what = "design: Coherent, RoundTrip and the step properties for every call in every reachable state; "
+    mcs = [pool.submit(ctx.model_check, "HCache", cfg, what + w, coverage=False, workers=2 if quick else 6)
+           for cfg, w in ([("MC_HCache_q.cfg", "cs, names {a,b}, ids {1,2}"),
+                           ("MC_HCache_meta.cfg", "metadata: one name, ids {1,2}, values {0,1}")] +
+                          ([] if quick else [("MC_HCache.cfg", "cs, names {a,b}, ids {1,2,3}"),
+                                             ("MC_HCache_ci.cfg", "ci, names {a,b,A}, ids {1,2,3}")]))]
     futs = {}
     for name, mode, kind, L, kw in families(ctx.tier, ctx.seed):
         if kind == "graph":
@@ -344,30 +364,45 @@ def run(ctx):
         else:
             futs[(name, mode, kind)] = [pool.submit(generate, ctx, name, mode, L, kind, name, **kw)]
 
-    # known-finding exemplars first
-    for f in ctx.findings:
-        ex = f.get("exemplar")
-        if ex:
-            tr = execute(ex["history"], ex["mode"])
-            if not judge(ctx, ex["mode"], [tr], [ex["history"]], "exemplar " + f["id"]):
-                ctx.extra.setdefault("exemplars_no_longer_failing", []).append(f["id"])
-
-    sizes, nontrivial = {}, 0
-    for (name, mode, kind), fs in futs.items():
-        hs = uniq([h for f in fs for h in f.result()])
-        sizes[name] = len(hs)
-        if kind != "sim" and len(hs) < 1000:
-            raise MachineryError("family %s has only %d histories" % (name, len(hs)))
-        run_family(ctx, mode, hs, name, last_only=(kind == "graph"), stats=stats)
-        ctx.sample({"family": name, "mode": mode, "history": hs[len(hs) // 2]})
-        if kind != "sim":
-            nontrivial += sum(1 for h in hs if h[-1]["op"] not in ("set_meta_path", "set_meta_oid"))
+    sizes, nontrivial, phases, t0 = {}, 0, {}, time.time()
+    per_mode = {"cs": ([], []), "ci": ([], [])}          # mode -> (traces, histories)
+    exemplars = {}                                       # (mode, trace index) -> finding id
+    try:
+        for f in ctx.findings:                           # known-finding exemplars are re-executed on every run
+            ex = f.get("exemplar")
+            if ex:
+                trs, hs = per_mode[ex["mode"]]
+                exemplars[(ex["mode"], len(trs))] = f["id"]
+                trs.append(execute(ex["history"], ex["mode"]))
+                hs.append(ex["history"])
+        for (name, mode, kind), fs in futs.items():
+            hs = uniq([h for f in fs for h in f.result()])
+            sizes[name] = len(hs)
+            if kind != "sim" and len(hs) < 1000:
+                raise MachineryError("family %s has only %d histories" % (name, len(hs)))
+            per_mode[mode][0].extend(execute_all(ctx, xpool, mode, hs, kind == "graph", stats))
+            per_mode[mode][1].extend(hs)
+            ctx.sample({"family": name, "mode": mode, "history": hs[len(hs) // 2]})
+            if kind != "sim":
+                nontrivial += sum(1 for h in hs if h[-1]["op"] not in ("set_meta_path", "set_meta_oid"))
+            phases[name + "_generated_executed_at"] = round(time.time() - t0, 1)
+    finally:
+        xpool.terminate()
+    vf = {mode: pool.submit(validate, ctx, mode, per_mode[mode][0], "all families, " + mode) for mode in per_mode}
+    for mode, f in vf.items():
+        viols = attribute(ctx, mode, per_mode[mode][0], per_mode[mode][1], f.result(), "all families, " + mode, stats)
+        failing = {ti for ti, _, _ in viols}
+        for (m, ti), fid in exemplars.items():
+            if m == mode and ti not in failing:
+                ctx.extra.setdefault("exemplars_no_longer_failing", []).append(fid)
+    phases["validated_at"] = round(time.time() - t0, 1)
     for m in mcs:
         m.result()
     pool.shutdown()
     ctx.cov["exhaustive"] = True
     ctx.count(nontrivial=nontrivial)
     ctx.extra["families"] = sizes
+    ctx.extra["phases_wall_s"] = phases
     ctx.extra["strata"] = {"%s_%s_%s" % k: v for k, v in sorted(stats.items()) if k[0] in ("lines", "hazardfree", "histories")}
     ctx.extra["tag_counts"] = {"%s_%s" % k[1:]: v for k, v in sorted(stats.items()) if k[0] == "tag"}
     ctx.extra["failure_signatures"] = {"|".join(k): v for k, v in sorted(stats.items()) if len(k) == 6}
